@@ -107,6 +107,11 @@ def check_user(ctx, case):
                   "returned alphabet %r, images %r" % (alphabet, sorted(set(user[a] for a in ref.AA))), case)
     else:
         ctx.check(not ok, "user-accepted", "invalid user alphabet (%s) accepted: %r" % (case.get("why"), res if ok else None), case)
+        # asking again does not make it valid (same object, same request)
+        o = util.spw(seq, case)
+        first = util.exc_name(o.get_reduced_alphabet_sequence, 20, dict(arg) if isinstance(arg, dict) else arg)
+        again = util.exc_name(o.get_reduced_alphabet_sequence, 20, dict(arg) if isinstance(arg, dict) else arg)
+        ctx.check(not first[0] and not again[0], "user-accepted-on-retry", "invalid user alphabet (%s) accepted when the same request was repeated: %r" % (case.get("why"), again[1] if again[0] else first[1]), case)
 
 
 def check(ctx, case):
@@ -133,6 +138,14 @@ def hyp_case(draw, max_len):
     nimg = draw(st.integers(1, 20))
     images = draw(st.lists(st.sampled_from(list(ref.AA)), min_size=nimg, max_size=nimg, unique=True))
     user = {a: draw(st.sampled_from(images)) for a in ref.AA}
+    if draw(st.integers(0, 5)) == 0:
+        # the representative letters of a predefined alphabet, but with the residues grouped differently (e.g. an HP model written with L/E)
+        reps = [g[0] for g in ref.PARTITIONS[draw(st.sampled_from([2, 3, 4, 5, 6, 8, 10]))]]
+        code_reps = {2: "LE", 3: "LFE", 4: "LAFE", 5: "LAFEK", 6: "LAPFEK", 8: "LASPFEKH", 10: "LCAGSPFEKH"}
+        reps = list(code_reps[len(reps)])
+        user = {a: draw(st.sampled_from(reps)) for a in ref.AA}
+        for i, rletter in enumerate(reps):
+            user[draw(st.sampled_from(list(ref.AA)))] = rletter
     how = draw(st.sampled_from(["valid", "valid", "valid-extra", "missing-key", "missing-key-extra", "bad-value", "non-dict"]))
     if how in ("valid-extra", "missing-key-extra"):
         for k in draw(st.lists(st.sampled_from(["B", "Z", "X", "U", "O", "a", "k", "w"]), min_size=1, max_size=3, unique=True)):
